@@ -1,108 +1,960 @@
 //go:build verif
 
+// Harness for C14: drives the real consensus/walstore and the Lean model of it on the same
+// operation histories, compares every observable (outcomes, LoadAllEntries, directory contents),
+// builds the crash images the model enumerates (plus plain snapshots of the real directory) and
+// reopens each of them with the real NewTendermintWALStore; the property oracle (computed in Go
+// from the API history alone) decides violations.
 package main
 
 import (
+	"encoding/json"
 	"fmt"
 	"os"
 	"os/signal"
 	"path/filepath"
+	"sort"
+	"strconv"
+	"strings"
+	"sync"
 	"syscall"
-	"time"
 
-	"github.com/NethermindEth/juno/consensus/starknet"
-	"github.com/NethermindEth/juno/consensus/types"
-	"github.com/NethermindEth/juno/consensus/types/wal"
-	"github.com/NethermindEth/juno/consensus/walstore"
-	"github.com/NethermindEth/juno/db"
+	"verif/harness/lib"
 )
 
-type pathDB struct {
-	db.KeyValueStore
-	path string
+const scratchRoot = "/tmp/aC14"
+
+// Op is one step of a history (also the replay format).
+type Op struct {
+	K string `json:"k"`           // set del flush close open crash
+	H uint64 `json:"h,omitempty"` // set/del: height
+	E int    `json:"e,omitempty"` // set: entry id
+	F string `json:"f,omitempty"` // flush/close/crash: fault (none append wm)
+	C string `json:"c,omitempty"` // crash: interrupted operation (idle flush close open)
+	I int    `json:"i,omitempty"` // crash: index of the durable state (mod their number)
+	M uint64 `json:"m,omitempty"` // crash: which zombies come back (bit mask)
+	T *tailVariant `json:"t,omitempty"` // crash: torn tail variant
+	// RLIMIT_FSIZE slack for an injected append failure: how many bytes of the batch still fit
+	S int `json:"s,omitempty"`
 }
 
-func (p pathDB) Path() string { return p.path }
-
-type Store = walstore.TendermintWALStore[starknet.Value, starknet.Hash, starknet.Address]
-
-func open(dir string) (Store, error) {
-	return walstore.NewTendermintWALStore[starknet.Value, starknet.Hash, starknet.Address](pathDB{path: dir})
-}
-
-func ls(dir string) {
-	es, _ := os.ReadDir(filepath.Join(dir, "consensus-wal"))
-	for _, e := range es {
-		i, _ := e.Info()
-		fmt.Printf("  %s %d\n", e.Name(), i.Size())
+func (o Op) String() string {
+	switch o.K {
+	case "set":
+		return fmt.Sprintf("set %d %d", o.H, o.E)
+	case "del":
+		return fmt.Sprintf("del %d", o.H)
+	case "flush", "close":
+		return fmt.Sprintf("%s %s", o.K, fault(o.F))
+	case "crash":
+		return fmt.Sprintf("crash %s %s %d %b", o.C, fault(o.F), o.I, o.M)
 	}
+	return o.K
+}
+
+func fault(f string) string {
+	if f == "" {
+		return "none"
+	}
+	return f
+}
+
+type call struct {
+	Del bool
+	H   uint64
+	E   int
+}
+
+// spec is the property's own reading of a history: LoadAllEntries after the given acknowledged
+// API calls is, for every height above the highest acknowledged prune, the entries of that
+// height in call order, heights ascending.
+func spec(cs []call) []string {
+	var maxPrune uint64
+	for _, c := range cs {
+		if c.Del && c.H > maxPrune {
+			maxPrune = c.H
+		}
+	}
+	by := map[uint64][]string{}
+	var hs []uint64
+	for _, c := range cs {
+		if c.Del || c.H <= maxPrune {
+			continue
+		}
+		if _, ok := by[c.H]; !ok {
+			hs = append(hs, c.H)
+		}
+		by[c.H] = append(by[c.H], entryStr(c.H, c.E))
+	}
+	sort.Slice(hs, func(i, j int) bool { return hs[i] < hs[j] })
+	out := []string{}
+	for _, h := range hs {
+		out = append(out, by[h]...)
+	}
+	return out
+}
+
+func entryStr(h uint64, e int) string { return fmt.Sprintf("%d=%s", h, canon(mkEntry(h, e))) }
+
+func eq(a, b []string) bool {
+	if len(a) != len(b) {
+		return false
+	}
+	for i := range a {
+		if a[i] != b[i] {
+			return false
+		}
+	}
+	return true
+}
+
+// parseLoad turns the model's "h:e,e;h:e" into the strings loadReal produces.
+func parseLoad(s string) ([]string, error) {
+	out := []string{}
+	if s == "-" {
+		return out, nil
+	}
+	for _, grp := range strings.Split(s, ";") {
+		kv := strings.SplitN(grp, ":", 2)
+		if len(kv) != 2 {
+			return nil, fmt.Errorf("bad load %q", s)
+		}
+		h, err := strconv.ParseUint(kv[0], 10, 64)
+		if err != nil {
+			return nil, err
+		}
+		for _, es := range strings.Split(kv[1], ",") {
+			e, err := strconv.Atoi(es)
+			if err != nil {
+				return nil, err
+			}
+			out = append(out, entryStr(h, e))
+		}
+	}
+	return out, nil
+}
+
+type base struct {
+	Disk diskDesc
+	Infl bool
+}
+
+type runner struct {
+	name     string
+	f        lib.Flags
+	res      *lib.Result
+	rng      *lib.RNG
+	drv      *lib.Driver
+	real     *realSide
+	level    int  // 0: sampled image checks, 1: every step every base, 2: + every byte offset
+	serial   bool // RLIMIT_FSIZE injection allowed (nothing else runs)
+	acked    []call
+	calls    []call
+	alive    bool
+	closed   bool
+	log      []Op
+	failed   bool
+	nImages  int
+	sawGC    bool
+	hot      int // steps left in which every image is checked
+	replayed bool
+}
+
+func (r *runner) ask(line string) string {
+	ans, err := r.drv.Ask(line)
+	if err != nil {
+		r.res.Note("driver: %v", err)
+		r.failed = true
+		return "driver-error"
+	}
+	return ans
+}
+
+func (r *runner) replay(extra map[string]any) map[string]any {
+	m := map[string]any{"ops": append([]Op(nil), r.log...)}
+	for k, v := range extra {
+		m[k] = v
+	}
+	return m
+}
+
+func (r *runner) mismatch(sig string, input any, model, impl any) {
+	r.res.Mismatch(lib.Mismatch{Sig: sig, Input: r.replay(map[string]any{"at": input}), Model: model, Impl: impl})
+}
+
+func (r *runner) basesOf(cop, ft string) []base {
+	ans := r.ask(fmt.Sprintf("bases %s %s", cop, fault(ft)))
+	var out []base
+	for _, p := range strings.Split(ans, " ; ") {
+		q := strings.Split(p, "|")
+		if len(q) != 2 {
+			r.res.Note("bad bases answer %q", ans)
+			r.failed = true
+			return nil
+		}
+		d, err := parseDisk(q[0])
+		if err != nil {
+			r.res.Note("bad bases answer %q: %v", ans, err)
+			r.failed = true
+			return nil
+		}
+		out = append(out, base{Disk: d, Infl: q[1] == "1"})
+	}
+	return out
+}
+
+func maskStr(m uint64, n int) string {
+	if n == 0 {
+		return "-"
+	}
+	b := make([]byte, n)
+	for i := 0; i < n; i++ {
+		if m>>uint(i)&1 == 1 {
+			b[i] = '1'
+		} else {
+			b[i] = '0'
+		}
+	}
+	return string(b)
+}
+
+// classify names the way a recovered log differs from what the property allows.
+func classify(got []string, allowed [][]string, ackedPre, inflight []call) string {
+	pos := map[string]int{}
+	for _, a := range allowed {
+		for _, s := range a {
+			pos[s]++
+		}
+	}
+	var maxPrune uint64
+	for _, c := range ackedPre {
+		if c.Del && c.H > maxPrune {
+			maxPrune = c.H
+		}
+	}
+	everWritten := map[string]bool{}
+	for _, c := range append(append([]call(nil), ackedPre...), inflight...) {
+		if !c.Del {
+			everWritten[entryStr(c.H, c.E)] = true
+		}
+	}
+	gotSet := map[string]bool{}
+	for _, s := range got {
+		gotSet[s] = true
+		h, _ := strconv.ParseUint(strings.SplitN(s, "=", 2)[0], 10, 64)
+		if !everWritten[s] {
+			return "recovered-entry-never-written"
+		}
+		if h <= maxPrune {
+			return "revived-pruned-entry"
+		}
+	}
+	// an entry every allowed result contains
+	for s, n := range pos {
+		if n == len(allowed) && !gotSet[s] {
+			return "lost-flushed-entry"
+		}
+	}
+	if len(allowed) == 2 {
+		some, all := false, true
+		inA0 := map[string]bool{}
+		for _, s := range allowed[0] {
+			inA0[s] = true
+		}
+		for _, s := range allowed[1] {
+			if inA0[s] {
+				continue
+			}
+			if gotSet[s] {
+				some = true
+			} else {
+				all = false
+			}
+		}
+		if some && !all {
+			return "partial-batch-recovered"
+		}
+	}
+	return "recovered-entries-differ"
+}
+
+// checkDir reopens the data directory with the real code and compares with the model's answer
+// (want, wantErr) and with the property (allowed).
+func (r *runner) checkDir(dbPath, label string, at any, wantOK bool, want []string, allowed [][]string, ackedPre, inflight []call, tornKeepOK bool) {
+	got, err := recoverReal(dbPath)
+	r.nImages++
+	r.res.Compared(1)
+	nontrivial := len(allowed[0]) > 0 || (len(allowed) > 1 && len(allowed[1]) > 0)
+	r.res.Case(fmt.Sprintf("%s/%d/%s/%v", r.name, len(r.log), label, at), nontrivial)
+	if err != nil {
+		r.res.Hit("image:reopen-error")
+		sig := "reopen-error-on-crash-image"
+		if strings.Contains(err.Error(), "PANIC") {
+			sig = "reopen-panics-on-crash-image"
+		} else if strings.Contains(err.Error(), "HANG") {
+			sig = "reopen-hangs-on-crash-image"
+		}
+		r.res.Violate(lib.Violation{Sig: sig,
+			What:   fmt.Sprintf("NewTendermintWALStore fails on a crash image (%s): %v", label, err),
+			Replay: r.replay(map[string]any{"image": at, "label": label})})
+		if wantOK {
+			r.mismatch("recover:"+label, at, "ok", "error: "+err.Error())
+		}
+		return
+	}
+	ok := false
+	for _, a := range allowed {
+		if eq(got, a) {
+			ok = true
+		}
+	}
+	if !ok {
+		sig := classify(got, allowed, ackedPre, inflight)
+		r.res.Hit("image:violation")
+		r.res.Violate(lib.Violation{Sig: sig,
+			What:   fmt.Sprintf("after a crash (%s) LoadAllEntries returns %d entries, allowed: %d or %d (%s)", label, len(got), len(allowed[0]), len(allowed[len(allowed)-1]), sig),
+			Replay: r.replay(map[string]any{"image": at, "label": label, "got": got, "allowed": allowed})})
+	}
+	if !wantOK {
+		r.mismatch("recover:"+label, at, "error", got)
+		return
+	}
+	if !eq(got, want) {
+		if tornKeepOK && ok {
+			r.res.Hit("image:torn-tail-kept")
+			return
+		}
+		r.mismatch("recover:"+label, at, want, got)
+	}
+}
+
+// checkImage materialises base idx of (cop, ft) with the zombies of mask resurrected and the
+// given torn tail, and checks it.
+func (r *runner) checkImage(cop, ft string, idx int, b base, mask uint64, tv tailVariant, allowed [][]string, inflight []call) {
+	ms := maskStr(mask, len(b.Disk.Zombies))
+	ans := r.ask(fmt.Sprintf("img %s %s %d %s", cop, fault(ft), idx, ms))
+	parts := strings.SplitN(ans, " => ", 2)
+	if len(parts) != 2 {
+		r.res.Note("bad img answer %q", ans)
+		r.failed = true
+		return
+	}
+	img, err := parseDisk(parts[0])
+	if err != nil {
+		r.res.Note("bad img answer %q", ans)
+		r.failed = true
+		return
+	}
+	wantOK := strings.HasPrefix(parts[1], "ok ")
+	var want []string
+	if wantOK {
+		want, err = parseLoad(strings.TrimPrefix(parts[1], "ok "))
+		if err != nil {
+			r.res.Note("bad img answer %q", ans)
+			r.failed = true
+			return
+		}
+	}
+	dir, err := r.real.materialise(img, tv, r.rng)
+	if err != nil {
+		// the bytes of a batch that never reached the disk are unknown (failed flush): skip
+		r.res.Hit("image:not-materialisable")
+		return
+	}
+	hasG := false
+	for _, f := range img.Files {
+		hasG = hasG || f.Garbage
+	}
+	label := cop + "/" + fault(ft)
+	r.res.Hit("image:" + label)
+	if hasG {
+		r.res.Hit("image:tail-" + tv.Kind)
+	}
+	if mask != 0 {
+		r.res.Hit("image:zombie-resurrected")
+	}
+	at := map[string]any{"cop": cop, "fault": fault(ft), "base": idx, "mask": ms, "tail": tv, "disk": parts[0]}
+	r.checkDir(dir, label, at, wantOK, want, allowed, r.acked, inflight, hasG && tv.Kind != "cut" && tv.Kind != "junk" && tv.Kind != "trailer")
+	_ = os.RemoveAll(dir)
+}
+
+// tailVariants lists the torn tails to try for a batch of n bytes.
+func (r *runner) tailVariants(n int, full bool) []tailVariant {
+	if n <= 1 {
+		return []tailVariant{{Kind: "junk", Off: r.rng.Intn(64)}}
+	}
+	var out []tailVariant
+	if full {
+		for o := 1; o < n; o++ {
+			out = append(out, tailVariant{"cut", o})
+		}
+		for o := 0; o < n; o++ {
+			out = append(out, tailVariant{"flip", o}, tailVariant{"zero", o})
+		}
+		out = append(out, tailVariant{"junk", 3}, tailVariant{"junk", 30})
+		return out
+	}
+	offs := map[int]bool{1: true, 2: true, 6: true, 7: true, 10: true, 11: true, 12: true, 22: true, 23: true, n - 1: true, n - 2: true, n / 2: true}
+	offs[1+r.rng.Intn(n-1)] = true
+	for o := range offs {
+		if o >= 1 && o < n {
+			out = append(out, tailVariant{"cut", o})
+		}
+	}
+	sort.Slice(out, func(i, j int) bool { return out[i].Off < out[j].Off })
+	out = append(out, tailVariant{"flip", r.rng.Intn(n)}, tailVariant{"flip", r.rng.Intn(11)}, tailVariant{"zero", r.rng.Intn(n)},
+		tailVariant{"junk", r.rng.Intn(64)})
+	return out
+}
+
+// imagesOf checks crash images of the operation (cop, ft) whose pre-state bases are bs.
+// The real operation has already run (so the bytes of the batch in flight are known); the model
+// is still in the pre-state.
+func (r *runner) imagesOf(cop, ft string, bs []base, every bool) {
+	inflight := append([]call(nil), r.calls...)
+	allowed := [][]string{spec(r.acked)}
+	if cop == "flush" || cop == "close" {
+		allowed = append(allowed, spec(append(append([]call(nil), r.acked...), inflight...)))
+	}
+	for idx, b := range bs {
+		if !every && r.rng.Intn(len(bs)) != 0 {
+			continue
+		}
+		nz := len(b.Disk.Zombies)
+		var masks []uint64
+		switch {
+		case nz == 0:
+			masks = []uint64{0}
+		case every && nz <= 4:
+			for m := uint64(0); m < 1<<uint(nz); m++ {
+				masks = append(masks, m)
+			}
+		default:
+			full := uint64(1)<<uint(nz) - 1
+			masks = []uint64{0, full, r.rng.Uint64() & full, 1 << uint(nz-1), full &^ 1}
+		}
+		g := -1
+		for i, f := range b.Disk.Files {
+			if f.Garbage {
+				g = i
+			}
+		}
+		for mi, m := range masks {
+			tvs := []tailVariant{{Kind: "junk", Off: r.rng.Intn(64)}}
+			if g >= 0 {
+				gf := b.Disk.Files[g]
+				n := 0
+				if fr := r.real.files[gf.Num]; fr != nil && gf.Batches+1 < len(fr.ends) {
+					n = fr.ends[gf.Batches+1] - fr.ends[gf.Batches]
+				}
+				if n > 0 {
+					tvs = r.tailVariants(n, r.level >= 2 && mi == 0)
+					if !every || mi > 0 {
+						tvs = tvs[:1+r.rng.Intn(2)]
+						tvs[0] = lib.Pick(r.rng, r.tailVariants(n, false))
+					}
+				} else {
+					tvs = []tailVariant{{Kind: "trailer", Off: r.rng.Intn(10)}, {Kind: "junk", Off: r.rng.Intn(64)}}
+					if !every {
+						tvs = tvs[:1]
+					}
+				}
+			}
+			for _, tv := range tvs {
+				r.checkImage(cop, ft, idx, b, m, tv, allowed, inflight)
+			}
+		}
+	}
+}
+
+// snapshot copies the real directory as it is between two API calls and reopens the copy.
+func (r *runner) snapshot() {
+	if r.real.db == "" {
+		return
+	}
+	r.real.nimg++
+	dst := filepath.Join(r.real.root, fmt.Sprintf("snap%d", r.real.nimg))
+	if err := copyDir(walDirOf(r.real.db), walDirOf(dst)); err != nil {
+		r.res.Note("snapshot: %v", err)
+		return
+	}
+	ans := r.ask("img idle none 0 -")
+	parts := strings.SplitN(ans, " => ", 2)
+	wantOK := len(parts) == 2 && strings.HasPrefix(parts[1], "ok ")
+	var want []string
+	if wantOK {
+		want, _ = parseLoad(strings.TrimPrefix(parts[1], "ok "))
+	}
+	r.res.Hit("image:snapshot")
+	r.checkDir(dst, "snapshot", "directory copied after the last operation", wantOK, want, [][]string{spec(r.acked)}, r.acked, nil, false)
+	_ = os.RemoveAll(dst)
+}
+
+func descEq(a, b diskDesc) bool {
+	if a.Wm != b.Wm || a.Tmp != b.Tmp || len(a.Files) != len(b.Files) {
+		return false
+	}
+	for i := range a.Files {
+		if a.Files[i] != b.Files[i] {
+			return false
+		}
+	}
+	return true
+}
+
+// compareState compares LoadAllEntries of the live store and the directory with the model.
+func (r *runner) compareState(step string) {
+	if r.alive && r.real.st != nil {
+		got, err := loadReal(r.real.st)
+		ms := r.ask("load")
+		want, perr := parseLoad(ms)
+		r.res.Compared(1)
+		if err != nil || perr != nil || !eq(got, want) {
+			r.mismatch("live-load", step, ms, fmt.Sprintf("%v %v", got, err))
+		}
+	}
+	if r.real.db != "" {
+		rd, err := r.real.observe(r.real.db, true)
+		md, perr := parseDisk(r.ask("disk"))
+		r.res.Compared(1)
+		if err != nil || perr != nil || !descEq(rd, md) {
+			r.mismatch("directory", step, md.String(), fmt.Sprintf("%s %v", rd.String(), err))
+		}
+	}
+}
+
+var rlimitMu sync.Mutex
+
+// withFault runs f with the requested failure injected into the real environment.
+func (r *runner) withFault(o Op, f func() error) error {
+	wd := walDirOf(r.real.db)
+	switch o.F {
+	case "wm":
+		tmp := filepath.Join(wd, "prune-watermark.tmp")
+		_ = os.RemoveAll(tmp)
+		_ = os.Mkdir(tmp, 0o755) // os.OpenFile(tmp, O_CREATE|O_TRUNC|O_WRONLY) fails with EISDIR
+		err := f()
+		_ = os.RemoveAll(tmp)
+		return err
+	case "append":
+		if !r.serial {
+			return f()
+		}
+		// the log being appended to is the highest-numbered one if a writer is open; a new log
+		// otherwise. Allow S more bytes than it has now: the write of the batch fails part-way.
+		var size int64
+		if r.ask("writer") != "-" {
+			d, _ := r.real.observe(r.real.db, false)
+			if n := len(d.Files); n > 0 {
+				if st, err := os.Stat(filepath.Join(wd, logName(d.Files[n-1].Num))); err == nil {
+					size = st.Size()
+				}
+			}
+		}
+		rlimitMu.Lock()
+		defer rlimitMu.Unlock()
+		var old syscall.Rlimit
+		_ = syscall.Getrlimit(syscall.RLIMIT_FSIZE, &old)
+		lim := syscall.Rlimit{Cur: uint64(size) + uint64(o.S), Max: old.Max}
+		if err := syscall.Setrlimit(syscall.RLIMIT_FSIZE, &lim); err != nil {
+			r.res.Note("setrlimit: %v", err)
+		}
+		err := f()
+		_ = syscall.Setrlimit(syscall.RLIMIT_FSIZE, &old)
+		return err
+	}
+	return f()
+}
+
+func cls(err error) string {
+	if err == nil {
+		return "ok"
+	}
+	return "err"
+}
+
+func mcls(s string) string {
+	switch s {
+	case "ok":
+		return "ok"
+	case "closed", "err-notcommitted", "err-committed", "err-open":
+		return "err"
+	}
+	return s
+}
+
+// exec runs one operation on both sides.
+func (r *runner) exec(o Op) {
+	if r.failed {
+		return
+	}
+	r.log = append(r.log, o)
+	r.res.Hit("op:" + o.K)
+	every := r.level >= 1 || r.hot > 0
+	if r.hot > 0 {
+		r.hot--
+	}
+	switch o.K {
+	case "set", "del":
+		if !r.alive {
+			return
+		}
+		var err error
+		if o.K == "set" {
+			err = guard(func() error { return r.real.st.SetWALEntry(mkEntry(o.H, o.E)) })
+		} else {
+			err = guard(func() error { return r.real.st.DeleteWALEntries(typesHeight(o.H)) })
+		}
+		m := r.ask(o.String())
+		r.res.Compared(1)
+		if cls(err) != mcls(m) {
+			r.mismatch("outcome:"+o.K, o.String(), m, fmt.Sprint(err))
+		}
+		if err == nil {
+			r.calls = append(r.calls, call{Del: o.K == "del", H: o.H, E: o.E})
+			if o.H == 0 {
+				r.res.Hit("height-0-" + o.K)
+			}
+		}
+	case "flush", "close":
+		if !r.alive {
+			return
+		}
+		wasClosed := r.closed
+		bs := r.basesOf(o.K, o.F)
+		if len(bs) > 6 {
+			r.res.Hit("flush:cleanup-runs")
+			r.sawGC = true
+			r.hot = 6
+			every = true
+		}
+		preAcked := spec(r.acked)
+		preBoth := spec(append(append([]call(nil), r.acked...), r.calls...))
+		err := r.withFault(o, func() error {
+			if o.K == "flush" {
+				return guard(r.real.st.Flush)
+			}
+			return guard(r.real.st.Close)
+		})
+		if _, oerr := r.real.observe(r.real.db, true); oerr != nil {
+			r.res.Note("observe: %v", oerr)
+		}
+		// which of the two histories does the live store show now?
+		live, lerr := loadReal(r.real.st)
+		committed := err == nil
+		if err != nil && !wasClosed {
+			r.res.Hit(o.K + ":returned-error")
+			switch {
+			case lerr == nil && eq(live, preAcked):
+				committed = false
+			case lerr == nil && eq(live, preBoth):
+				committed = true
+				r.res.Hit(o.K + ":error-after-commit")
+			default:
+				r.res.Violate(lib.Violation{Sig: "failed-flush-leaves-partial-state-in-memory",
+					What:   fmt.Sprintf("%s returned %v and LoadAllEntries shows neither the state before nor the state after the batch", o.K, err),
+					Replay: r.replay(map[string]any{"live": live})})
+			}
+		}
+		if bs != nil && (every || r.rng.Intn(12) == 0) {
+			r.imagesOf(o.K, o.F, bs, every)
+		}
+		m := r.ask(o.String())
+		r.res.Compared(1)
+		if cls(err) != mcls(m) || (err != nil && !wasClosed && (m == "err-committed") != committed) {
+			r.mismatch("outcome:"+o.K, o.String(), m, fmt.Sprintf("%v committed=%v", err, committed))
+		}
+		if m == "err-notcommitted" || m == "err-committed" {
+			r.res.Hit(o.K + ":model-" + m)
+		}
+		if committed && !wasClosed {
+			r.acked = append(r.acked, r.calls...)
+			r.calls = nil
+		}
+		if o.K == "close" {
+			r.closed = true
+		}
+		if err != nil && !committed && o.K == "flush" && !wasClosed {
+			// "does not make the log unusable": the very next flush, without a fault, must succeed
+			r.hot = 3
+		}
+	case "open":
+		if r.alive && !r.closed {
+			return
+		}
+		if r.real.db == "" {
+			r.real.db = r.real.newDir()
+		}
+		bs := r.basesOf("open", "")
+		if bs != nil && (every || r.rng.Intn(4) == 0) {
+			r.imagesOf("open", "", bs, every)
+		}
+		st, err := openReal(r.real.db)
+		m := r.ask("open")
+		r.res.Compared(1)
+		if cls(err) != mcls(m) {
+			r.mismatch("outcome:open", "open", m, fmt.Sprint(err))
+		}
+		if err != nil {
+			r.res.Violate(lib.Violation{Sig: "reopen-error",
+				What:   fmt.Sprintf("NewTendermintWALStore fails on the directory the history left: %v", err),
+				Replay: r.replay(nil)})
+			r.failed = true
+			return
+		}
+		r.real.st = st
+		r.alive, r.closed = true, false
+		r.calls = nil
+	case "crash":
+		r.crash(o)
+		return
+	}
+	r.compareState(o.String())
+	if every || r.rng.Intn(10) == 0 {
+		r.snapshot()
+	}
+}
+
+// crash: the process dies while (o.C, o.F) runs; the directory becomes one of its crash images.
+func (r *runner) crash(o Op) {
+	cop := o.C
+	if (cop == "flush" || cop == "close") && !r.alive {
+		cop = "idle"
+	}
+	if cop == "open" && r.alive && !r.closed {
+		cop = "idle"
+	}
+	if r.real.db == "" {
+		return
+	}
+	bs := r.basesOf(cop, o.F)
+	if bs == nil {
+		return
+	}
+	// run the interrupted operation on the real store so that the bytes it writes are known
+	if (cop == "flush" || cop == "close") && r.alive {
+		_ = r.withFault(Op{K: cop, F: o.F, S: o.S}, func() error {
+			if cop == "flush" {
+				return guard(r.real.st.Flush)
+			}
+			return guard(r.real.st.Close)
+		})
+		if _, err := r.real.observe(r.real.db, true); err != nil {
+			r.res.Note("observe: %v", err)
+		}
+	}
+	idx := o.I % len(bs)
+	b := bs[idx]
+	nz := len(b.Disk.Zombies)
+	mask := o.M
+	if nz < 64 {
+		mask &= uint64(1)<<uint(nz) - 1
+	}
+	ms := maskStr(mask, nz)
+	ans := r.ask(fmt.Sprintf("img %s %s %d %s", cop, fault(o.F), idx, ms))
+	parts := strings.SplitN(ans, " => ", 2)
+	img, err := parseDisk(parts[0])
+	if len(parts) != 2 || err != nil {
+		r.res.Note("bad img answer %q", ans)
+		r.failed = true
+		return
+	}
+	tv := tailVariant{Kind: "junk", Off: 5}
+	if o.T != nil {
+		tv = *o.T
+	}
+	dir, err := r.real.materialise(img, tv, r.rng)
+	if err != nil {
+		// unknown bytes (batch of a failed flush): crash at the first durable state instead
+		idx, b = 0, bs[0]
+		ms = maskStr(mask, len(b.Disk.Zombies))
+		ans = r.ask(fmt.Sprintf("img %s %s %d %s", cop, fault(o.F), idx, ms))
+		parts = strings.SplitN(ans, " => ", 2)
+		img, _ = parseDisk(parts[0])
+		dir, err = r.real.materialise(img, tv, r.rng)
+		if err != nil {
+			r.res.Note("cannot materialise crash image %q: %v", ans, err)
+			r.failed = true
+			return
+		}
+	}
+	r.res.Hit("crash:" + cop)
+	m := r.ask(fmt.Sprintf("crash %s %s %d %s", cop, fault(o.F), idx, ms))
+	if m != "ok" {
+		r.res.Note("crash rejected by the model: %s", m)
+		r.failed = true
+		return
+	}
+	if r.real.st != nil {
+		_ = guard(r.real.st.Close) // stops Pebble's goroutines; its directory is abandoned
+		r.real.st = nil
+	}
+	old := r.real.db
+	r.real.db = dir
+	_ = os.RemoveAll(old)
+	if b.Infl {
+		r.acked = append(r.acked, r.calls...)
+	}
+	r.calls = nil
+	r.alive, r.closed = false, false
+	// the files of the new directory are the ones the bookkeeping knows (same bytes)
+	r.real.prev = map[uint64]bool{}
+	for _, f := range img.Files {
+		r.real.prev[f.Num] = true
+	}
+	if _, err := r.real.observe(r.real.db, false); err != nil {
+		r.res.Note("observe image: %v", err)
+	}
+}
+
+func (r *runner) run(ops []Op) {
+	for _, o := range ops {
+		r.exec(o)
+		if r.failed {
+			break
+		}
+	}
+	if r.real.st != nil {
+		_ = guard(r.real.st.Close)
+		r.real.st = nil
+	}
+}
+
+func newRunner(name string, f lib.Flags, res *lib.Result, rng *lib.RNG, level int, serial bool) (*runner, error) {
+	drv, err := lib.StartDriver(f.Driver)
+	if err != nil {
+		return nil, err
+	}
+	root := filepath.Join(scratchRoot, fmt.Sprintf("run%d", os.Getpid()), name)
+	_ = os.RemoveAll(root)
+	if err := os.MkdirAll(root, 0o755); err != nil {
+		return nil, err
+	}
+	return &runner{name: name, f: f, res: res, rng: rng, drv: drv, real: newRealSide(root), level: level, serial: serial}, nil
+}
+
+func (r *runner) done() {
+	r.drv.Close()
+	_ = os.RemoveAll(r.real.root)
+}
+
+type job struct {
+	name   string
+	ops    []Op
+	level  int
+	serial bool
+	seed   uint64
+}
+
+func runJob(j job, f lib.Flags, res *lib.Result) {
+	rng := lib.NewRNG(j.seed)
+	r, err := newRunner(j.name, f, res, rng, j.level, j.serial)
+	if err != nil {
+		res.Note("runner %s: %v", j.name, err)
+		return
+	}
+	defer r.done()
+	r.run(j.ops)
+	res.Hit("history:" + strings.SplitN(j.name, "-", 2)[0])
+	if r.sawGC {
+		res.Hit("history:with-cleanup")
+	}
+	res.Sample(8, map[string]any{"history": j.name, "ops": len(j.ops), "images": r.nImages, "first_ops": head(j.ops, 12)})
+}
+
+func head(ops []Op, n int) []string {
+	var out []string
+	for i, o := range ops {
+		if i >= n {
+			break
+		}
+		out = append(out, o.String())
+	}
+	return out
 }
 
 func main() {
-	dir := "/tmp/aC14/probe"
-	os.RemoveAll(dir)
-	os.MkdirAll(dir, 0o755)
-	s, err := open(dir)
-	fmt.Println("open", err)
-	t0 := time.Now()
-	for h := 1; h <= 300; h++ {
-		st := wal.Start(types.Height(h))
-		s.SetWALEntry(&st)
-		to := wal.Timeout{Step: 1, Height: types.Height(h), Round: 2}
-		s.SetWALEntry(&to)
-		if err := s.Flush(); err != nil {
-			fmt.Println("flush", err)
+	f := lib.ParseFlags()
+	res := lib.NewResult("one case = one reopen of a crash image (or of a copy of the real directory) with the real " +
+		"NewTendermintWALStore, compared with the model and with the property; non-trivial = the history has " +
+		"acknowledged or in-flight entries that must (or may) survive; distinct by history, step, image and torn-tail variant")
+	signal.Ignore(syscall.SIGXFSZ) // RLIMIT_FSIZE makes writes fail with EFBIG instead of killing us
+	_ = os.MkdirAll(scratchRoot, 0o755)
+	runRoot := filepath.Join(scratchRoot, fmt.Sprintf("run%d", os.Getpid()))
+	defer os.RemoveAll(runRoot)
+
+	if f.Replay != "" {
+		replayFile(f, res)
+		_ = os.RemoveAll(runRoot)
+		lib.Finish(f, res)
+	}
+
+	rng := lib.NewRNG(f.Seed)
+	var par, ser []job
+	add := func(dst *[]job, kind string, n int, level int, serial bool, gen func(*lib.RNG) []Op) {
+		for i := 0; i < n; i++ {
+			g := rng.Fork(uint64(len(par) + len(ser)))
+			*dst = append(*dst, job{name: fmt.Sprintf("%s-%d", kind, i), ops: gen(g), level: level, serial: serial, seed: g.Uint64()})
 		}
-		if h > 3 {
-			s.DeleteWALEntries(types.Height(h - 3))
+	}
+	lvl := 1
+	if f.Thorough() {
+		lvl = 2
+	}
+	for _, fx := range fixedHistories() {
+		par = append(par, job{name: fx.name, ops: fx.ops, level: lvl, seed: 7})
+	}
+	add(&par, "short", f.Scale(400, 6000), lvl, false, func(g *lib.RNG) []Op { return genShort(g, false) })
+	add(&par, "gc", f.Scale(48, 400), f.Scale(0, 1), false, func(g *lib.RNG) []Op { return genGC(g, false) })
+	add(&ser, "fault", f.Scale(150, 2500), lvl, true, func(g *lib.RNG) []Op { return genShort(g, true) })
+	add(&ser, "gcfault", f.Scale(6, 60), 0, true, func(g *lib.RNG) []Op { return genGC(g, true) })
+
+	workers := 12
+	var wg sync.WaitGroup
+	ch := make(chan job)
+	for w := 0; w < workers; w++ {
+		wg.Add(1)
+		go func() {
+			defer wg.Done()
+			for j := range ch {
+				runJob(j, f, res)
+			}
+		}()
+	}
+	for _, j := range par {
+		ch <- j
+	}
+	close(ch)
+	wg.Wait()
+	// failure injection through RLIMIT_FSIZE is process-wide: these histories run alone
+	for _, j := range ser {
+		runJob(j, f, res)
+	}
+	_ = os.RemoveAll(runRoot)
+	lib.Finish(f, res)
+}
+
+// replayFile re-runs the history of a replay written by an earlier run, checking every image.
+func replayFile(f lib.Flags, res *lib.Result) {
+	b, err := os.ReadFile(f.Replay)
+	if err != nil {
+		res.Note("replay: %v", err)
+		return
+	}
+	var doc struct {
+		Replay struct {
+			Ops []Op `json:"ops"`
+		} `json:"replay"`
+	}
+	if err := json.Unmarshal(b, &doc); err != nil {
+		res.Note("replay: %v", err)
+		return
+	}
+	serial := false
+	for _, o := range doc.Replay.Ops {
+		if o.F == "append" {
+			serial = true
 		}
-		if h == 255 || h == 258 || h == 259 || h==260 {
-			fmt.Println("h", h)
-			ls(dir)
-		}
 	}
-	fmt.Println("300 flushes", time.Since(t0))
-	ls(dir)
-	// RLIMIT_FSIZE injection
-	signal.Ignore(syscall.SIGXFSZ)
-	var old syscall.Rlimit
-	syscall.Getrlimit(syscall.RLIMIT_FSIZE, &old)
-	fi, _ := os.Stat(filepath.Join(dir, "consensus-wal", "000002.log"))
-	var sz int64
-	if fi != nil {
-		sz = fi.Size()
-	}
-	fmt.Println("cur size", sz)
-	lim := syscall.Rlimit{Cur: uint64(sz + 20), Max: old.Max}
-	fmt.Println("setrlimit", syscall.Setrlimit(syscall.RLIMIT_FSIZE, &lim))
-	st := wal.Start(types.Height(1000))
-	s.SetWALEntry(&st)
-	err = s.Flush()
-	fmt.Println("flush under limit:", err)
-	syscall.Setrlimit(syscall.RLIMIT_FSIZE, &old)
-	ls(dir)
-	n := 0
-	for range s.LoadAllEntries() {
-		n++
-	}
-	fmt.Println("entries", n)
-	err = s.Flush()
-	fmt.Println("retry flush:", err)
-	ls(dir)
-	n = 0
-	for range s.LoadAllEntries() {
-		n++
-	}
-	fmt.Println("entries", n)
-	fmt.Println("close", s.Close())
-	ls(dir)
-	s, err = open(dir)
-	fmt.Println("reopen", err)
-	n = 0
-	for e := range s.LoadAllEntries() {
-		n++
-		_ = e
-	}
-	fmt.Println("entries", n)
-	ls(dir)
+	runJob(job{name: "replay-0", ops: doc.Replay.Ops, level: 2, serial: serial, seed: f.Seed}, f, res)
 }
